@@ -322,10 +322,11 @@ def tree_cases(depth: int, rng, limit: int | None):
                     v = next(it)
                     nm = next(names)
                     r = rng.random()
-                    if r < 0.12:
+                    if r < 0.2:
                         # an atom that is itself a comparison with a range literal or a string containing dots: the parentheses of a
                         # range and the grouping parentheses around it must not be confused
-                        toks.append({"v": v, "src": rng.choice(["(1..3) contains 2", "(lo..3) contains 3", "s2 == '..'", "(1..hi) contains 1"] if v else ["(1..3) contains 5", "(lo..3) contains 0", "s2 != '..'"])})
+                        toks.append({"v": v, "src": rng.choice(["(1..3) contains 2", "(lo..3) contains 3", "s2 == '..'", "(1..hi) contains 1", "lo <> hi", "hi != lo", "lo == 1", "lo < hi", "hi >= 3", "s2 contains '.'"]
+                                                            if v else ["(1..3) contains 5", "(lo..3) contains 0", "s2 != '..'", "lo <> lo", "lo <> 1", "hi == lo", "hi < lo", "lo >= hi", "s2 contains 'x'"])})
                     elif r < 0.45:
                         # a variable whose Liquid truthiness is the chosen bit but whose Python truthiness may differ (0, "", [] are truthy)
                         val = rng.choice([0, "", [], 0.0, {}, "x", 1, [0], True] if v else [None, False])
